@@ -48,6 +48,27 @@ def sampleOnGrid (src tgt : Grid d α) (srcN tgtN : Fin d → Nat) (pad : Paddin
     (img : (Fin d → Int) → α) (j : Fin d → α) : α :=
   gridSampleLin src.alignCorners pad srcN img (sampleCoord src tgt tgtN j)
 
+/-! ### `ImageBatch.pyramid`: how the data of the finest level is obtained
+  src: src/deepali/data/image.py `ImageBatch.pyramid` @706-741; src/deepali/core/grid.py `Grid.align_corners(arg)`
+       @379-388. -/
+
+/-- grid.py `Grid.align_corners(arg)` @379-388: shallow copy with the flag replaced. data/image.py @709-710:
+    `grids = tuple(grid.align_corners(align_corners) for grid in self._grid)`; `source_grids = grids`. -/
+def Grid.reflag (g : Grid d α) (ac : Bool) : Grid d α := { g with alignCorners := ac }
+
+/-- data/image.py `ImageBatch.pyramid` @722-741, the two ways the finest-level data is produced: `close` is the outcome
+    of the test `torch.allclose(grids[0].cube_extent(), source_grids[0].cube_extent())`; `resized` is
+    `U.grid_resize(self, grids[0].size(), mode, align_corners=align_corners)`, `sampled` is `U.grid_sample` at
+    `grid_transform_points(grid.coords(align_corners), grid, axes, source_grid, axes)`. -/
+def pyramidFinestData {β : Type} (close : Bool) (resized sampled : β) : β := if close then resized else sampled
+
+/-- the decision of `ImageBatch.pyramid` for an image grid `img` (under its own flag), the requested convention `ac`
+    and the finest-level grid `new` (derived from `source = img.reflag ac` by `Grid.resample` / `Grid.pyramid`, hence
+    flagged `ac`): BOTH cube extents are taken from grids flagged `ac`. `extClose` stands for `torch.allclose`. -/
+def pyramidFinest {β : Type} (img new : Grid d α) (ac : Bool) (extClose : Vec d α → Vec d α → Bool)
+    (resized sampled : β) : β :=
+  pyramidFinestData (extClose new.cubeExtent (img.reflag ac).cubeExtent) resized sampled
+
 /-! ### module entry points `deepali.modules.AlignImage` / `TransformImage` (identity transform)
   src: src/deepali/modules/sample.py `SampleImage.__init__` @42-55, `align_corners` @88-90,
        `_matrix` @92-100, `_transform_target_to_source` @102-105, `_sample_source_image` @107-188,
